@@ -97,7 +97,9 @@ Boolean AddCPUAlias(char* OrigName, char* AliasName) {
         Neu->Number     = CPUCnt++;
         Neu->Orig       = Lauf->Orig;
         Neu->SwitchProc = Lauf->SwitchProc;
-        Neu->FreeProc   = Lauf->FreeProc;
+        /* the user data stays the property of the original entry */
+
+        Neu->FreeProc   = NULL;
         Neu->pUserData  = Lauf->pUserData;
         Neu->pArgs      = Lauf->pArgs;
         while (Lauf->Next) {
